@@ -140,4 +140,14 @@ func addEnvIntrinsics(m map[string]intrinsic) {
 	m["time.Since"] = since
 	m["time.Until"] = since
 	m["time.Sleep"] = func(p *Path, fn *ssa.Function, a []Value, pos token.Pos, caller *ssa.Function) []Value { return nil }
+	// sha512 (table file names): Write consumes, Sum appends 64 arbitrary bytes (NOT functional: the same input may give
+	// different outputs; nothing in the claimed properties compares two names computed from equal inputs)
+	m["(*crypto/internal/fips140/sha512.Digest).Write"] = func(p *Path, fn *ssa.Function, a []Value, pos token.Pos, caller *ssa.Function) []Value {
+		return []Value{IntV{T: a[1].(SliceV).Len}, IfaceV{}}
+	}
+	m["(*crypto/internal/fips140/sha512.Digest).Sum"] = func(p *Path, fn *ssa.Function, a []Value, pos token.Pos, caller *ssa.Function) []Value {
+		out := p.freshBytes("sha512", 64, 64)
+		out.Len, out.Cap = p.ctx.BV(64, 64), p.ctx.BV(64, 64)
+		return []Value{p.appendOp(a[1], out, pos, caller)}
+	}
 }
